@@ -108,6 +108,8 @@ func c06(c *Ctx) {
 				kind = "close of"
 			}
 			_, base := fieldOf(info, ch)
+			// the exporter that owns the channel (the channel may sit in a nested struct of it)
+			base = ownerExpr(info, lookupType(ix.Pkg, "bufferExporter"), base)
 			mu := pathKey(info, base) + resolvePath(ix.Pkg, "bufferExporter", ".inputMu")
 			key := "sdk/log|" + s.F.Name + "|" + kind + " input under inputMu"
 			okL, why := le.Require(s.F, s.N, mu, true, 0)
